@@ -884,6 +884,8 @@ def check_l2(c, pi_model):
                 classes.setdefault(i, set()).add('bridge_saturation')
 
     lemmas = []
+    nbad = [0]
+    prescreen_only = {}
     plan = {}            # lemma name -> (point index, 'ok'|'bad')
     verdict = {}         # point index -> provisional verdict
     for i, p in enumerate(pts):
@@ -988,6 +990,13 @@ def check_l2(c, pi_model):
                 pre_ok = abs(float(r_) - ref) <= tol
             okpre = okpre and pre_ok
             nm = 'pt_%d_%d' % (i, ci)
+            if not pre_ok:
+                nbad[0] += 1
+                if nbad[0] > 40:
+                    # many wrong values (a broken build): the first 40 are certified wrong by Coq, the
+                    # rest are reported on the float pre-screen alone to keep the run short
+                    prescreen_only.setdefault(i, []).append((nm, 'bad', False))
+                    continue
             cl = claims_for(F, r_, ref if ref not in (float('inf'), float('-inf')) else 2.0, p, negate=not pre_ok)
             tac = 'pt'
             if len(cl) > 1:
@@ -1014,6 +1023,8 @@ def check_l2(c, pi_model):
         if what == 'ok' and cert:
             continue
         bad_points.setdefault(i, []).append((nm, what, cert))
+    for i, lst in prescreen_only.items():
+        bad_points.setdefault(i, []).extend(lst)
     for i, lst in sorted(bad_points.items()):
         p = pts[i]
         kn = p.cls or set()
@@ -1024,7 +1035,7 @@ def check_l2(c, pi_model):
                 hit = True
         if hit:
             continue
-        c.violation('inaccurate' if certified_bad else 'accuracy-not-certifiable',
+        c.violation('inaccurate' if certified_bad else ('inaccurate-by-prescreen' if i in prescreen_only else 'accuracy-not-certifiable'),
                     {'kind': 'impl-vs-spec', 'layer': 'L2', 'expr': p.expr, 'impl': p.out15, 'true_value_coq': [p.coq_re, p.coq_im],
                      'float_reference': repr(p.ref), 'lemmas': [(nm, what, 'certified' if cert else 'NOT certified') for nm, what, cert in lst],
                      'points_dir': pdir})
